@@ -19,6 +19,7 @@ import ALV.Lemmas.C03Counts
 import ALV.Lemmas.C03Call
 import ALV.Lemmas.C03X
 import ALV.Lemmas.C03XC
+import ALV.Lemmas.C03Src
 import ALV.Common.Audit
 
 namespace ALV.Props.C03
@@ -843,6 +844,125 @@ example :
     xrun 9 (XSt.empty : XSt Int) ops = obs ∧ srun 9 (SSt.empty : SSt Int) ops = obs ∧
       (∀ o, o ∈ xrun 9 (XSt.empty : XSt Int) ops → o ≠ none) := by
   refine ⟨by decide +kernel, by decide +kernel, by decide +kernel⟩
+
+/-! ### C03.12 — the model is regenerated from the source (translator `harness/props/c03_tr.py`)
+
+`ALV.Gen.C03` is rewritten from `audiolazy/lazy_stream.py` on every run of the check: one program (`Src.Body` /
+`Src.HubBody`, the deep embedding of Model/C03Src.lean) per method.  The theorems below say that the interpretation
+of the regenerated program of each method is the hand-written model function of that method; `src_step_is_model`
+puts them together: the step function every theorem above speaks about IS the interpretation of what the source
+says now (`run`, `hrun`, `crun` are folds of `step`). -/
+
+open ALV.C03.Src in
+/-- `Stream.take`: `if n is None` / `if isinf(n) and n > 0` / `if isinstance(n, float): n = rint(n) if n > 0 else 0` /
+    `constructor(it.islice(self._data, max(n, 0)))` decide the mode `takeMode` decides, for every count -/
+theorem src_take_mode_is_model (c : Cnt) : takeModeP ALV.Gen.C03.take c = .ok (takeMode c) :=
+  takeModeP_gen c
+
+open ALV.C03.Src in
+/-- `Stream.take` on an iterator -/
+theorem src_take_is_model : @takeP α ALV.Gen.C03.take = takeIt := by
+  funext f h it c; exact takeP_gen f h it c
+
+open ALV.C03.Src in
+/-- `Stream.copy`: `a, b = it.tee(self._data); self._data = a; return Stream(b)` is `teeOf`, both sides at position 0 -/
+theorem src_copy_is_model :
+    @copyP α ALV.Gen.C03.copy = fun h it => .ok ((teeOf h it).1, (teeOf h it).2, (teeOf h it).2) := by
+  funext h it; exact copyP_gen h it
+
+open ALV.C03.Src in
+/-- `StreamTeeHub.copy`: the same on `self._iters[0]` -/
+theorem src_hub_copy_is_model :
+    @hubCopyP α ALV.Gen.C03.hubCopy = fun h it => .ok ((teeOf h it).1, (teeOf h it).2, (teeOf h it).2) := by
+  funext h it; exact hubCopyP_gen h it
+
+open ALV.C03.Src in
+/-- `Stream.peek` = `self.copy().take(n=n, …)`: the count is handed on unchanged, and the whole operation (Stream
+    and hub, empty hub: the IndexError of `StreamTeeHub.__iter__`) is the model's -/
+theorem src_peek_is_model (f : Nat) (st : St α) (i : Nat) (c : Cnt) :
+    peekArgP ALV.Gen.C03.peek c = .ok c ∧ stepP ALV.Gen.C03.progs f st (.peek i c) = step f st (.peek i c) :=
+  ⟨peekArgP_gen c, stepP_peek f st i c⟩
+
+open ALV.C03.Src in
+/-- `Stream.skip`: the `skipper` generator over `xrange(int(round(n)))`, count evaluated lazily -/
+theorem src_skip_is_model (it : It α) (c : Cnt) (g : α → α) (p : α → Bool) (o : Option (It α)) :
+    wrapP ALV.Gen.C03.skip it c g p o =
+      match roundCount c with
+      | .error _ => .error .refused
+      | .ok n => .ok (.skipper n it) :=
+  wrapP_skip it c g p o
+
+open ALV.C03.Src in
+/-- `Stream.limit`: `it.islice(self._data, max(int(round(n)), 0))`, errors of `int(round(n))` raised by the call -/
+theorem src_limit_is_model (it : It α) (c : Cnt) (g : α → α) (p : α → Bool) (o : Option (It α)) :
+    wrapP ALV.Gen.C03.limit it c g p o =
+      match roundCount c with
+      | .error e => .error (.eager e)
+      | .ok n => .ok (.limiter n it) :=
+  wrapP_limit it c g p o
+
+open ALV.C03.Src in
+/-- `Stream.append`: `it.chain(self._data, Stream(*other)._data)` -/
+theorem src_append_is_model (it it2 : It α) (c : Cnt) (g : α → α) (p : α → Bool) :
+    wrapP ALV.Gen.C03.append it c g p (some it2) = .ok (.chain it it2) :=
+  wrapP_append it it2 c g p
+
+open ALV.C03.Src in
+/-- `Stream.map`: `xmap(func, self._data)` -/
+theorem src_map_is_model (it : It α) (c : Cnt) (g : α → α) (p : α → Bool) (o : Option (It α)) :
+    wrapP ALV.Gen.C03.map it c g p o = .ok (.map g it) :=
+  wrapP_map it c g p o
+
+open ALV.C03.Src in
+/-- `Stream.filter`: `xfilter(func, self._data)` -/
+theorem src_filter_is_model (it : It α) (c : Cnt) (g : α → α) (p : α → Bool) (o : Option (It α)) :
+    wrapP ALV.Gen.C03.filter it c g p o = .ok (.filter p it) :=
+  wrapP_filter it c g p o
+
+open ALV.C03.Src in
+/-- the `StreamTeeHub` side: `take` raises AttributeError, `__iter__` pops or raises IndexError, and each of
+    `limit / skip / append / map / filter` is `Stream(self).<the same method>(<the same arguments>)` -/
+theorem src_hub_methods_are_model :
+    raiseP ALV.Gen.C03.hubTake = "AttributeError" ∧ popErrP ALV.Gen.C03.hubIter = "IndexError" ∧
+    viaP "limit" ["n"] ALV.Gen.C03.hubLimit = true ∧ viaP "skip" ["n"] ALV.Gen.C03.hubSkip = true ∧
+    viaP "append" ["*other"] ALV.Gen.C03.hubAppend = true ∧ viaP "map" ["func"] ALV.Gen.C03.hubMap = true ∧
+    viaP "filter" ["func"] ALV.Gen.C03.hubFilter = true := by
+  decide
+
+open ALV.C03.Src in
+/-- **the model's step function is the interpretation of the regenerated programs**, for every fuel, state and
+    operation (take / peek / skip / limit / append / map / filter / copy on Streams and StreamTeeHubs come from the
+    programs; the constructor, `next(iter(x))`, `list(x)`, `thub`, `tee` are the hand-written branches on both sides) -/
+theorem src_step_is_model : @stepP α ALV.Gen.C03.progs = step := by
+  funext f st op; exact stepP_gen f st op
+
+open ALV.C03.Src in
+/-- signatures: parameter names, order and defaults of the translated methods are the documented ones, and the
+    call layer's reading of an omitted count is the reading of the default the source gives (`take(n=None)`; `n` of
+    skip / limit required) -/
+theorem src_signatures_are_model :
+    ALV.Gen.C03.sigs = sigModel ∧
+    (∀ a, argOfDefault (sigDefault ALV.Gen.C03.sigs "Stream.take" "n") = some a → elabTake .omitted = elabTake a) ∧
+    (∀ a, argOfDefault (sigDefault ALV.Gen.C03.sigs "Stream.peek" "n") = some a → elabTake .omitted = elabTake a) ∧
+    argOfDefault (sigDefault ALV.Gen.C03.sigs "Stream.skip" "n") = some .omitted ∧
+    argOfDefault (sigDefault ALV.Gen.C03.sigs "Stream.limit" "n") = some .omitted := by
+  refine ⟨by decide, ?_, ?_, by decide, by decide⟩
+  · intro a h
+    have : argOfDefault (sigDefault ALV.Gen.C03.sigs "Stream.take" "n") = some (.given .none) := by decide
+    rw [this] at h; cases h; rfl
+  · intro a h
+    have : argOfDefault (sigDefault ALV.Gen.C03.sigs "Stream.peek" "n") = some (.given .none) := by decide
+    rw [this] at h; cases h; rfl
+
+/-- non-vacuity: a history through every translated method, run by the interpretation of the regenerated programs -/
+example :
+    ALV.C03.Src.runP ALV.Gen.C03.progs 12 (St.empty : St Int)
+      [.new (.list [1, 2, 3, 4, 5, 6, 7, 8]), .peek 0 (.flt (5/2)), .take 0 (.flt (5/2)), .copy 0, .skip 0 (.flt (3/2)),
+       .limit 0 (.flt (5/2)), .map 0 (· * 10), .filter 0 (· != 70), .append 0 (.list [9]), .take 0 .inf, .take 1 .none,
+       .thub (.list [1, 2]) 1, .take 2 (.int 1), .peek 2 (.int 1), .map 2 (· + 1), .copy 2]
+    = [some (.new 0), some (.items [1, 2, 3]), some (.items [1, 2, 3]), some (.new 1), some .unit, some .unit, some .unit,
+       some .unit, some .unit, some (.items [60, 9]), some (.item 4), some (.new 2), some (.err "AttributeError"),
+       some (.items [1]), some (.new 3), some (.err "IndexError")] := by decide +kernel
 
 end ALV.Props.C03
 
